@@ -278,7 +278,7 @@ def _why(c, w): return isinstance(c.get("why"), list) and any(x.startswith(w) fo
 
 KF = {
     # exclude_none omits a None field only when its declared type is a union with None: `a: Any = None` stays
-    "KF43": lambda c: c.get("why") == ["emitted-keys-differ-from-the-omission-rule"] and c.get("k_ok") is True and c.get("extra_none_in_non_optional") is True,
+    "KF43": lambda c: c.get("why") == ["emitted-keys-differ-from-the-omission-rule"] and c.get("k_ok") is not False and c.get("extra_none_in_non_optional") is True,
     # Dict[K, V] with K a Literal / Enum of non-string values serializes to non-string keys
     "KF21": lambda c: _why(c, "output-is-not-JSON-only") and c.get("k_ok") is not False and _f(c, "mapping") and _f(c, "literal", "enum"),
     # expected_class() has no case for a Literal member or for a union nested through a NewType: TypeError '... is not supported in union serialization'
